@@ -1,4 +1,4 @@
 def run(ctx):
-    from . import kernel_proofs, validate_proofs
+    from . import chunkreduce_proofs, kernel_proofs, validate_proofs
 
-    return kernel_proofs.run(ctx, ["prepare", "grouped_sum_size", "grouped_max_nosize", "nanmax", "nanmin"], "C01") + " " + validate_proofs.run(ctx, "C01", which=("engine",))
+    return kernel_proofs.run(ctx, ["prepare", "grouped_sum_size", "grouped_max_nosize", "nanmax", "nanmin"], "C01") + " " + validate_proofs.run(ctx, "C01", which=("engine",)) + " " + chunkreduce_proofs.run(ctx, "C01")
